@@ -495,10 +495,10 @@ Proof.
             | Err x => if is_pe (xk x) || is_index (xk x) then k (inr (loc, RPR acc)) else foe o
             | _ => Ret Div end)).
   { intros [l r|x|]; try ret. destruct (is_pe (xk x) || is_index (xk x)); [apply Hk|apply Hfoe]. }
-  apply K_check_ender; [exact Hn|]. intros [o|]; [apply Hstop|].
   apply K_skip_ignorables; [exact Hi| |].
   - intros x. apply (Hstop (Err x)).
-  - intros l. unfold call. callc Hb.
+  - intros l. apply K_check_ender; [exact Hn|]. intros [o|]; [apply Hstop|].
+    unfold call. callc Hb.
     + match goal with |- context [Nat.eqb ?a loc] => destruct (Nat.eqb a loc) end; [ret|apply IH].
     + apply (Hstop (Err x)).
     + ret.
